@@ -10,5 +10,5 @@ ob("bv_find_next_zero", "C12", entry="h_bv_find_next_zero", enforce="bv_find_nex
 ob("bv_new", "C12", entry="h_bv_new", enforce="bv_new", **BV)
 
 prop("C12",
-     residual="equality of the whole reported tag/ref set with 'created and not deleted' over a history; reopen; tbbt.c internals",
+     residual="(round 3, c12_htp.py: HTPselect/delete/update/inquire/endaccess, Hdupdd, Hdeldd, Hfind per call over a two-entry abstraction of the tag tree; Hnumber bounded.)  NOT decided: equality of the whole reported tag/ref set with 'created and not deleted' over a history; reopen; tbbt.c internals",
      assumptions=["A-TBBT: tbbt.c (threaded balanced tree) is not verified; where used it is a trusted finite map"])
